@@ -379,7 +379,7 @@ impl<W: Write + io::Seek> ZipWriter<W> {
             uncompressed_size: 0,
         });
 
-        {
+        let started: ZipResult<()> = (|| {
             let writer = self.inner.get_plain();
             let header_start = writer.stream_position()?;
 
@@ -416,6 +416,14 @@ impl<W: Write + io::Seek> ZipWriter<W> {
             self.stats.hasher = Hasher::new();
 
             self.files.push(file);
+            self.writing_raw = false;
+            Ok(())
+        })();
+        if started.is_err() {
+            // The previous entry has been closed and part of a header may have been written: the
+            // bookkeeping no longer describes the sink, so nothing more may be written.
+            self.inner = GenericZipWriter::Closed;
+            return started;
         }
         if let Some(keys) = options.encrypt_with {
             let mut zipwriter = crate::zipcrypto::ZipCryptoWriter { writer: core::mem::replace(&mut self.inner, GenericZipWriter::Closed).unwrap(), buffer: vec![], keys };
@@ -459,12 +467,21 @@ impl<W: Write + io::Seek> ZipWriter<W> {
                 )
             })?;
 
-            update_local_file_header(writer, file)?;
-            writer.seek(io::SeekFrom::Start(file_end))?;
+            let patched = update_local_file_header(writer, file).and_then(|()| {
+                writer.seek(io::SeekFrom::Start(file_end))?;
+                Ok(())
+            });
+            if patched.is_err() {
+                // The sink is now somewhere inside the entry's header: nothing more can be
+                // written without corrupting what is already there.
+                self.inner = GenericZipWriter::Closed;
+                return patched;
+            }
         }
 
+        // `writing_raw` stays as it is: it describes the last entry, which a failed `finish` or a
+        // failed start of the next entry may ask to have closed once more.
         self.writing_to_file = false;
-        self.writing_raw = false;
         Ok(())
     }
 
@@ -650,20 +667,28 @@ impl<W: Write + io::Seek> ZipWriter<W> {
         if !self.writing_to_central_extra_field_only {
             let writer = self.inner.get_header_writer();
 
-            // Append extra data to local file header and keep it for central file header.
-            writer.write_all(&file.extra_field)?;
-
             // Update final `data_start`.
             let header_end = *data_start + file.extra_field.len() as u64;
-            self.stats.start = header_end;
-            *data_start = header_end;
-
             // Update extra field length in local file header.
             let extra_field_length =
                 if file.large_file { 20 } else { 0 } + file.extra_field.len() as u16;
-            writer.seek(io::SeekFrom::Start(file.header_start + 28))?;
-            writer.write_u16::<LittleEndian>(extra_field_length)?;
-            writer.seek(io::SeekFrom::Start(header_end))?;
+
+            let appended: ZipResult<()> = (|| {
+                // Append extra data to local file header and keep it for central file header.
+                writer.write_all(&file.extra_field)?;
+                writer.seek(io::SeekFrom::Start(file.header_start + 28))?;
+                writer.write_u16::<LittleEndian>(extra_field_length)?;
+                writer.seek(io::SeekFrom::Start(header_end))?;
+                Ok(())
+            })();
+            if appended.is_err() {
+                // Part of the extra data may be in place and the sink may be positioned inside
+                // the header: a retry or any later call would write over the entry.
+                self.inner = GenericZipWriter::Closed;
+                return appended.map(|()| 0);
+            }
+            self.stats.start = header_end;
+            *data_start = header_end;
 
             self.inner
                 .switch_to(file.compression_method, file.compression_level)?;
@@ -723,9 +748,17 @@ impl<W: Write + io::Seek> ZipWriter<W> {
         self.writing_to_file = true;
         self.writing_raw = true;
 
-        let copied = io::copy(file.get_raw_reader(), self)?;
+        // The header already declares `compressed_size` bytes of data: if they cannot all be
+        // transferred the entry is beyond repair, and so is an archive that lists it.
+        let copied = match io::copy(file.get_raw_reader(), self) {
+            Ok(n) => n,
+            Err(e) => {
+                self.inner = GenericZipWriter::Closed;
+                return Err(e.into());
+            }
+        };
         if copied != compressed_size {
-            // the header already declares `compressed_size` bytes of data
+            self.inner = GenericZipWriter::Closed;
             return Err(ZipError::Io(io::Error::new(
                 io::ErrorKind::UnexpectedEof,
                 "Source entry ended before its declared compressed size",
@@ -846,7 +879,11 @@ impl<W: Write + io::Seek> ZipWriter<W> {
 
         self.start_entry(name, options, None)?;
         self.writing_to_file = true;
-        self.write_all(target.into().as_bytes())?;
+        if let Err(e) = self.write_all(target.into().as_bytes()) {
+            // the entry exists but its target could not be stored
+            self.inner = GenericZipWriter::Closed;
+            return Err(e.into());
+        }
         self.writing_to_file = false;
 
         Ok(())
